@@ -25,12 +25,14 @@ def generate(tier, seed, casedir, variant):
         base = S.base_cfg(rng, S.KINDS[j % 3], n=rng.randint(5, 9))
         base["opt"] = S.OPTS[j % 4]
         base["lr"] = rng.choice([2.0 ** -5, 2.0 ** -3, 2.0 ** -2])       # larger rates make the validation loss go up and down
-        base["validation"] = dict(type="loss", every=rng.choice([1, 1, 2]), early=(j % 4 != 3), patience=rng.choice([0, 1, 2]), own_param_gen=(j % 2 == 0))
+        base["validation"] = dict(type="loss", every=rng.choice([1, 1, 2]), early=(j % 4 != 3), patience=rng.choice([0, 1, 2]), own_param_gen=(j % 2 == 0), own_obs_gen=(j % 3 != 2))
         if base["validation"]["own_param_gen"]:
             base["param_gen"] = True
+        if base["validation"]["own_obs_gen"]:
+            base["obs_gen"] = True
         cfgs.append(base)
     r = run_all(cfgs, casedir, variant, "C19")
-    r["rule"] = ("scripted validation modules: outcome scripts (stop request, improvement flag) of length %d (all %d of them in the thorough tier), periods 1..3; built-in ValidationLoss with its own data / parameter generators, "
+    r["rule"] = ("scripted validation modules: outcome scripts (stop request, improvement flag) of length %d (all %d of them in the thorough tier), periods 1..3; built-in ValidationLoss with its own data / parameter / observation generators, "
                  "patience 0..2, early stopping on and off; non-trivial = at least two iterations executed" % (L, 4 ** L))
     r["exhaustive"] = tier == "thorough"
     return r
